@@ -1,6 +1,6 @@
 /- `chessdrv`: line protocol driver.  One request per line on stdin, one answer line on stdout:
 `<model answer> ## <specification answer>`. -/
-import ChessVerif.Drv.Small
+import ChessVerif.Drv.LookupH
 
 open Chess Chess.Drv
 
@@ -14,6 +14,9 @@ def dispatch (line : String) : Ans :=
   | "iter" :: r => handleIter r
   | "trace" :: r => handleTrace r
   | "bb" :: r => handleBB r
+  | "lookup" :: r => handleLookup r
+  | "gen" :: r => handleLookup r
+  | "zob" :: r => handleZob r
   | _ => bad
 
 partial def loop (hin hout : IO.FS.Stream) : IO Unit := do
